@@ -342,3 +342,11 @@ func (rs *raceState) report(a *accessRec, ak string, b *accessRec, bk string) {
 	rs.reports[key] = fmt.Sprintf("%s\n  %s at %s by task %s\n  %s at %s by task %s\n  (no happens-before edge between the two accesses)", key, ak, a.site, a.tid, bk, b.site, b.tid)
 	rs.order = append(rs.order, key)
 }
+
+// NoteAccess lets a stub report an access to memory it owns (e.g. the user's writer) on
+// behalf of the calling task.
+func NoteAccess(addr uintptr, site string, write bool) {
+	if r := active(); r != nil && r.race != nil {
+		r.access(addr, site, write)
+	}
+}
